@@ -69,7 +69,7 @@ int main(int argc, char** argv) {
           char* c1 = strchr(w, ','); *c1 = 0; char kind = c1[1]; char* val = c1 + 3;
           char spec[256]; unhex(w + 1, spec, sizeof spec); strcat(fmt, spec);
           var a = mkarg(kind, val); args[na++] = a; nconv++;
-          char r[4096]; int n = 0;
+          char r[16384]; int n = 0;
           if (kind == 'I') n = snprintf(r, sizeof r, spec, c_int(a));            /* the value exactly as print_to hands it to the C library */
           else if (kind == 'F') n = snprintf(r, sizeof r, spec, c_float(a));
           else if (kind == 'S') n = snprintf(r, sizeof r, spec, c_str(a));
@@ -83,6 +83,11 @@ int main(int argc, char** argv) {
             a = w[1] == 'A' ? (var)new_raw(Array, Int) : w[1] == 'L' ? (var)new_raw(List, Int) : (var)new_raw(Table, Int, Int);
             char* p = strchr(w, ','); int k = 0; int64_t key = 0;
             while (p && p[1]) { int64_t v = strtoll(p + 1, &p, 10); if (w[1] == 'T') { if (k % 2) set(a, $I(key), $I(v)); else key = v; k++; } else push(a, $I(v)); if (*p != ',') break; }
+          } else if (w[1] == 'U' || w[1] == 'D') {      /* heap Tuple of Ints; D: the FIRST object appears again at the end */
+            a = new_raw(Tuple);
+            char* p = strchr(w, ','); var first = NULL;
+            while (p && p[1]) { int64_t v = strtoll(p + 1, &p, 10); var e = new_raw(Int, $I(v)); if (!first) first = e; push(a, e); if (*p != ',') break; }
+            if (w[1] == 'D' && first) push(a, first);
           } else a = mkarg(w[1], w + 3);
           args[na++] = a;
           var t = new_raw(String, $S("")); show_to(a, t, 0);
